@@ -32,6 +32,7 @@ class HAProxyProtocolWrapper(policies.ProtocolWrapper):
         super().__init__(factory, wrappedProtocol)
         self._proxyInfo: Optional[_info.ProxyInfo] = None
         self._parser: Union[V2Parser, V1Parser, None] = None
+        self._buffer = b""
 
     def dataReceived(self, data: bytes) -> None:
         if self._proxyInfo is not None:
@@ -39,6 +40,7 @@ class HAProxyProtocolWrapper(policies.ProtocolWrapper):
 
         parser = self._parser
         if parser is None:
+            data, self._buffer = self._buffer + data, b""
             if (
                 len(data) >= 16
                 and data[:12] == V2Parser.PREFIX
@@ -47,6 +49,15 @@ class HAProxyProtocolWrapper(policies.ProtocolWrapper):
                 self._parser = parser = V2Parser()
             elif len(data) >= 8 and data[:5] == V1Parser.PROXYSTR:
                 self._parser = parser = V1Parser()
+            elif (
+                len(data) < 16
+                and data[:12] == V2Parser.PREFIX[: len(data)]
+                and (len(data) < 13 or ord(data[12:13]) & 0b11110000 == 0x20)
+            ) or (len(data) < 8 and data[:5] == V1Parser.PROXYSTR[: len(data)]):
+                # Too short to tell the version yet, but still a possible
+                # beginning of a header: wait for more.
+                self._buffer = data
+                return None
             else:
                 self.loseConnection()
                 return None
